@@ -43,11 +43,12 @@ def snapshot_config(J):
     rng = cfg.get_info("valid_addr_range")
     style = cfg.get_info("assembly_style")
     return {
-        "mfm": cfg.get_info(J["PartialMatchingConfig"].MnemonicsFullMatch),
-        "ofm": cfg.get_info(J["PartialMatchingConfig"].OperandsFullMatch),
-        "style": style.name if style is not None else None,
+        # raw values as text ("True", "False", "None"): the specification decides what they mean
+        "mfm": str(cfg.get_info(J["PartialMatchingConfig"].MnemonicsFullMatch)),
+        "ofm": str(cfg.get_info(J["PartialMatchingConfig"].OperandsFullMatch)),
+        "style": style.name if style is not None else "None",
         "range": [] if rng is None else [format(rng.min.hex, "x"), format(rng.max.hex, "x")],
-        "sections": cfg.get_info("sections"),
+        "sections": list(cfg.get_info("sections") or []),
     }
 
 
